@@ -112,7 +112,7 @@ def gen_op(rng, type_changing=False):
     r = rng.random()
     if type_changing:
         pool = [facade[0], facade[1], direct[0], direct[4], direct[6], pandas_ops[0], pandas_ops[6], pandas_ops[7],
-                pandas_ops[8], facade[2], facade[3], pandas_ops[13]]
+                pandas_ops[8], facade[2], facade[3], pandas_ops[13], direct[3], direct[2], direct[0], facade[3]]
         return rng.choice(pool)()
     if r < 0.3:
         return rng.choice(facade)()
